@@ -691,6 +691,20 @@ fn corpus_project_mirrored() -> Project {
     Project { files, has_import: true, schema_files: vec!["src/graphql/schema.graphql".into()], op_files: vec!["src/app/q.graphql".into(), "lib/app/f.graphql".into()] }
 }
 
+/// anonymous operations in every form, each alone in its document or next to fragments (own and imported)
+fn corpus_project_anonymous(mode: &str) -> Project {
+    let mut files = BTreeMap::new();
+    files.insert("graphql.config.yaml".into(), config_yaml(mode, "./gen/schema.d.ts", None));
+    files.insert("schema/main.graphql".into(), "directive @opdir(label: String) on QUERY | MUTATION | SUBSCRIPTION\ntype Query {\n  me: User!\n  n: Int\n}\ntype Mutation {\n  setN(text: String!): Int\n}\ntype Subscription {\n  tick: Int\n}\ntype User {\n  name: String\n}\n".into());
+    files.insert("ops/a.graphql".into(), "#import F from \"./f.graphql\"\n# shorthand\n{\n  me { ...F ...L }\n  n\n}\nfragment L on User { name }\n".into());
+    files.insert("ops/b.graphql".into(), "query {\n  n\n}\n".into());
+    files.insert("ops/c.graphql".into(), "mutation ($t: String! = \"é\") @opdir(label: \"x\") {\n  setN(text: $t)\n}\n".into());
+    files.insert("ops/d.graphql".into(), "subscription{\n  tick\n}\n".into());
+    files.insert("ops/e.graphql".into(), "mutation M {\n  setN(text: \"a\")\n}\n".into());
+    files.insert("ops/f.graphql".into(), "fragment F on User {\n  name\n}\n".into());
+    Project::classic(files, true)
+}
+
 // ---- directory layouts of inputs and outputs
 //
 // A small pool of component names, so that equal names at equal depth under different roots (mirrored trees), names
@@ -996,6 +1010,20 @@ fn gen_project(rng: &mut Rng) -> Project {
         main.push_str("# leading comment\n\n");
     }
     main.push_str(&print_type(rng, "type Query", &query_fields));
+    // further root types (same fields as Query, so every selection below is valid under each of them) and a directive
+    // that is legal on operations
+    let has_mut = rng.coin();
+    let has_sub = rng.coin();
+    let has_opdir = rng.coin();
+    if has_mut {
+        main.push_str(&print_type(rng, "type Mutation", &query_fields));
+    }
+    if has_sub {
+        main.push_str(&print_type(rng, "type Subscription", &query_fields));
+    }
+    if has_opdir {
+        main.push_str("directive @opdir(label: String) on QUERY | MUTATION | SUBSCRIPTION\n");
+    }
     for (i, fs) in type_fields.iter().enumerate() {
         let t = print_type(rng, &format!("type T{i}"), fs);
         if two_files && i % 2 == 1 {
@@ -1113,7 +1141,24 @@ fn gen_project(rng: &mut Rng) -> Project {
         let mut imports: Vec<(String, String)> = vec![];
         let mut body = String::new();
         let mut local_frags = String::new();
-        let nsel = 1 + rng.below(3);
+        // the form of the operation: named query (as before), named mutation / subscription, ANONYMOUS with its keyword
+        // (`query {`, `mutation {`, `subscription {`, with variables / directives), or the query SHORTHAND `{ … }`.
+        // One operation per file, so an anonymous one is always the only operation of its document; fragments may follow.
+        let mut others = vec![];
+        if has_mut {
+            others.push("mutation");
+        }
+        if has_sub {
+            others.push("subscription");
+        }
+        let (optype, anonymous, shorthand): (&str, bool, bool) = match rng.below(10) {
+            0 | 1 => ("query", true, true),
+            2 => ("query", true, false),
+            3 => (if others.is_empty() { "query" } else { *rng.pick(&others) }, true, false),
+            4 if !others.is_empty() => (*rng.pick(&others), false, false),
+            _ => ("query", false, false),
+        };
+        let nsel = if optype == "subscription" { 1 } else { 1 + rng.below(3) };
         for _ in 0..nsel {
             let (qn, _, tgt) = query_fields[rng.below(query_fields.len())].clone();
             let alias = if rng.chance(1, 4) { format!("a{}: ", rng.below(9)) } else { String::new() };
@@ -1155,7 +1200,7 @@ fn gen_project(rng: &mut Rng) -> Project {
         }
         // variables whose default values are non-ASCII string literals (standalone mode prints them inline)
         let mut vars = String::new();
-        if rng.chance(1, 3) {
+        if !shorthand && optype != "subscription" && rng.chance(1, 3) {
             let nv = 1 + rng.below(2);
             let mut defs = vec![];
             for v in 0..nv {
@@ -1165,7 +1210,19 @@ fn gen_project(rng: &mut Rng) -> Project {
             }
             vars = format!("({})", defs.join(if rng.coin() { ", " } else { " " }));
         }
-        s.push_str(&format!("query Q{q}{vars} {{\n{body}}}\n{local_frags}"));
+        let dir = if has_opdir && !shorthand && rng.chance(1, 3) { format!(" @opdir(label: \"{}\")", rng.pick(&lits)) } else { String::new() };
+        let head = if shorthand {
+            String::new()
+        } else if anonymous {
+            // `query {`, `query{`, `query ($v: …) {`, `mutation @opdir(…) {`
+            let sp = if !vars.is_empty() && rng.coin() { " " } else { "" };
+            let close = if vars.is_empty() && dir.is_empty() && rng.chance(1, 3) { "" } else { " " };
+            format!("{optype}{sp}{vars}{dir}{close}")
+        } else {
+            let n = match optype { "query" => "Q", "mutation" => "M", _ => "S" };
+            format!("{optype} {n}{q}{vars}{dir} ")
+        };
+        s.push_str(&format!("{head}{{\n{body}}}\n{local_frags}"));
         op_files.push(path.clone());
         files.insert(path, s);
     }
@@ -1411,6 +1468,8 @@ impl<'a> Ctx<'a> {
         let nschema = nschema + n_virtual;
         store.extend(path_sorted(p.op_files.clone()));
         let mut named_by_map: BTreeMap<String, Vec<(String, i128, String)>> = BTreeMap::new();
+        // every segment with an original position: (source file, line, column, named?)
+        let mut any_by_map: BTreeMap<String, Vec<(String, i128, i128, bool)>> = BTreeMap::new();
         for (i, (rel, sources, names, src_texts, is_op, generated, virtual_idx)) in metas.iter().enumerate() {
             // K: sources = model's sourceFiles
             let own = if *is_op { op_of_map(rel).and_then(|o| store.iter().position(|f| *f == o)) } else { None };
@@ -1488,6 +1547,8 @@ impl<'a> Ctx<'a> {
                         continue;
                     }
                     self.rep.count("e2e:generated-identifier-checked");
+                    // (an operation keyword as name says nothing about the generated identifier; the source side judges it)
+                    let carries = carries || ["query", "mutation", "subscription"].contains(&name.as_str());
                     if !(whole && carries) {
                         self.rep.fail("O", &format!("e2e:generated-text-not-identifier:{tag}"), &format!("{rel}: named segment {si} ({name:?}) at generated {}:{}..{} covers {text:?} (line continues {:?}) — not exactly the identifier declaring {name:?}", s.line, a, end, String::from_utf16_lossy(&gl[a..gl.len().min(a + 30)])), case.clone());
                     }
@@ -1528,25 +1589,47 @@ impl<'a> Ctx<'a> {
                     let name = names.get(ni.max(0) as usize).cloned().unwrap_or_default();
                     // token start (columns are UTF-16 units): not in the middle of a name, not on white space,
                     // and the token is the name or the keyword / description / spread that starts the named construct
-                    let token_ok = |oc: usize| -> Result<(), String> {
+                    // Err((is the position a token start?, why))
+                    let token_ok = |oc: usize| -> Result<(), (bool, String)> {
                         let cur = u.get(oc).copied().unwrap_or(b' ' as u16);
                         let mid = oc > 0 && is_name_char(u[oc - 1]) && is_name_char(cur);
                         let rest = String::from_utf16_lossy(&u[oc.min(u.len())..]);
                         if mid || cur == b' ' as u16 || cur == b'\t' as u16 || oc >= u.len() {
-                            return Err(format!("points at {ol}:{oc} = {rest:?}, not the start of a token"));
+                            return Err((false, format!("points at {ol}:{oc} = {rest:?}, not the start of a token")));
                         }
-                        if !(rest.starts_with(name.as_str()) || KEYWORDS.iter().any(|k| rest.starts_with(k)) || rest.starts_with("...")) {
-                            return Err(format!("has name {name:?} but the source at {ol}:{oc} is {rest:?}"));
+                        // the token itself (a name token: the whole token, not a prefix of it)
+                        if rest.starts_with(name.as_str()) && !name.is_empty() && !rest[name.len()..].chars().next().map_or(false, |c| c == '_' || c.is_ascii_alphanumeric()) {
+                            return Ok(());
                         }
-                        Ok(())
+                        // the name of the definition whose keyword is there
+                        for k in ["type", "interface", "input", "enum", "union", "scalar", "query", "mutation", "subscription", "fragment", "directive"] {
+                            if let Some(after) = rest.strip_prefix(k) {
+                                if after.chars().next().map_or(false, |c| c == '_' || c.is_ascii_alphanumeric()) {
+                                    continue;
+                                }
+                                let defname: String = after.trim_start().trim_start_matches('@').chars().take_while(|c| *c == '_' || c.is_ascii_alphanumeric()).collect();
+                                if defname == name {
+                                    return Ok(());
+                                }
+                                return Err((true, format!("has name {name:?} but the source at {ol}:{oc} is {rest:?}: the definition whose keyword is there is named {defname:?}")));
+                            }
+                        }
+                        // a description / `extend` / `schema` in front of the named construct, or a spread
+                        if rest.starts_with('"') || rest.starts_with("extend") || rest.starts_with("schema") || rest.starts_with("...") {
+                            return Ok(());
+                        }
+                        Err((true, format!("has name {name:?} but the source at {ol}:{oc} is {rest:?}")))
                     };
                     match token_ok(oc) {
                         Ok(()) => nontrivial = true,
-                        Err(why) => {
+                        Err((at_token, why)) => {
                             // is the column a count of code points (pest) instead of UTF-16 units? (DESIGN §9-an)
                             let as_cp: usize = l.chars().take(oc).map(|c| c.len_utf16()).sum();
                             if astral_line && as_cp != oc && token_ok(as_cp).is_ok() {
                                 self.rep.fail("O", "e2e:original-column-counts-code-points", &format!("{rel}: named segment {si} ({name:?}) of {} {why}; the column is right only when counted in code points — an astral character precedes the token on its line, Source Map columns are UTF-16 units", sources[src as usize]), case.clone());
+                            } else if at_token {
+                                let form = if l.trim_start().starts_with('{') { "at-selection-set(query-shorthand)" } else { tag };
+                                self.rep.fail("O", &format!("e2e:segment-name-not-source-identifier:{form}"), &format!("{rel}: named segment {si} of {} {why} — the name is neither the token there nor the name of the definition whose keyword is there", sources[src as usize]), case.clone());
                             } else {
                                 self.rep.fail("O", &format!("e2e:original-not-token:{tag}"), &format!("{rel}: named segment {si} of {} {why}", sources[src as usize]), case.clone());
                             }
@@ -1555,15 +1638,38 @@ impl<'a> Ctx<'a> {
                     {
                         let abs = normalize(&root.join(rel).parent().unwrap().join(&sources[src as usize]));
                         let srel = abs.strip_prefix(&root).map(|x| x.to_string_lossy().to_string()).unwrap_or_default();
-                        named_by_map.entry(rel.clone()).or_default().push((srel, ol, name.clone()));
+                        named_by_map.entry(rel.clone()).or_default().push((srel.clone(), ol, name.clone()));
+                        any_by_map.entry(rel.clone()).or_default().push((srel, ol, oc as i128, true));
                     }
                     prev_named = Some((src, ol, oc as i128, name));
                 } else {
+                    let mut range_end = false;
                     if let Some((psrc, pl, pc, pname)) = &prev_named {
                         // range-closing segment: just past the mapped name
-                        if !(*psrc == src && *pl == ol && oc as i128 == pc + utf16_len(pname) as i128) {
+                        range_end = *psrc == src && *pl == ol && oc as i128 == pc + utf16_len(pname) as i128;
+                        if !range_end {
                             self.rep.count("note:unnamed-segment-after-named-not-range-end");
                         }
+                    }
+                    if !range_end {
+                        // an unnamed segment that closes no range: the original position is the start of a token
+                        let tok = |oc: usize| -> bool {
+                            let cur = u.get(oc).copied().unwrap_or(b' ' as u16);
+                            !(oc >= u.len() || cur == b' ' as u16 || cur == b'\t' as u16 || (oc > 0 && is_name_char(u[oc - 1]) && is_name_char(cur)))
+                        };
+                        if tok(oc) {
+                            self.rep.count("e2e:unnamed-segment-token-start-checked");
+                        } else {
+                            let as_cp: usize = l.chars().take(oc).map(|c| c.len_utf16()).sum();
+                            if astral_line && as_cp != oc && tok(as_cp) {
+                                self.rep.fail("O", "e2e:original-column-counts-code-points", &format!("{rel}: unnamed segment {si} of {} points at {ol}:{oc}, not the start of a token; the column is right only when counted in code points — an astral character precedes the token on its line, Source Map columns are UTF-16 units", sources[src as usize]), case.clone());
+                            } else {
+                                self.rep.fail("O", &format!("e2e:original-not-token:unnamed:{tag}"), &format!("{rel}: unnamed segment {si} of {} points at {ol}:{oc} = {:?}, not the start of a token", sources[src as usize], String::from_utf16_lossy(&u[oc.min(u.len())..])), case.clone());
+                            }
+                        }
+                        let abs = normalize(&root.join(rel).parent().unwrap().join(&sources[src as usize]));
+                        let srel = abs.strip_prefix(&root).map(|x| x.to_string_lossy().to_string()).unwrap_or_default();
+                        any_by_map.entry(rel.clone()).or_default().push((srel, ol, oc as i128, false));
                     }
                     prev_named = None;
                 }
@@ -1604,8 +1710,35 @@ impl<'a> Ctx<'a> {
                         }
                     }
                 } else {
-                    let def = t.strip_prefix("query ").map(|r| ("operation", word(r))).or_else(|| t.strip_prefix("fragment ").map(|r| ("fragment", word(r))));
+                    let kw_def = |kw: &str| -> Option<String> {
+                        let r = t.strip_prefix(kw)?;
+                        if r.chars().next().map_or(false, |c| c == '_' || c.is_alphanumeric()) {
+                            return None;
+                        }
+                        Some(word(r.trim_start()))
+                    };
+                    let def = if l.starts_with('{') {
+                        Some(("operation", String::new())) // query shorthand
+                    } else if let Some(n) = ["query", "mutation", "subscription"].iter().find_map(|k| kw_def(k)) {
+                        Some(("operation", n))
+                    } else {
+                        t.strip_prefix("fragment ").map(|r| ("fragment", word(r)))
+                    };
                     let Some((kind, n)) = def else { continue };
+                    if kind == "operation" && n.is_empty() {
+                        // an anonymous operation has no name token: the identifiers declaring it (Result, Variables, the
+                        // document) carry a segment to where the operation starts (its keyword, or `{` in shorthand form)
+                        let form = if l.starts_with('{') { "shorthand" } else { "keyword" };
+                        let col = utf16_len(&l[..l.len() - t.len()]) as i128;
+                        if let Some(map) = find_map(file.trim_end_matches(".graphql")) {
+                            self.rep.count(&format!("e2e:definition:operation:anonymous:{form}"));
+                            let ok = any_by_map.get(&map).map_or(false, |v| v.iter().any(|(f, sl, sc, _)| f == file && *sl == ln as i128 && *sc == col));
+                            if !ok {
+                                self.rep.fail("O", &format!("e2e:definition-without-segment:operation:anonymous:{form}"), &format!("{map}: no segment into {file}:{ln}:{col} (start of the anonymous operation)"), case.clone());
+                            }
+                        }
+                        continue;
+                    }
                     // the file's own map, and the map of every operation file that (transitively) imports it
                     for other in p.op_files.iter() {
                         let own = other == file;
@@ -1832,6 +1965,9 @@ fn main() {
         ctx.project(&corpus_project_standalone(), &cli, &scratch, 0);
         ctx.project(&corpus_project_plugin(), &cli, &scratch, 0);
         ctx.project(&corpus_project_mirrored(), &cli, &scratch, 0);
+        for mode in ["with-loader-ts-5.0", "with-loader-ts-4.0", "standalone-ts-4.0"] {
+            ctx.project(&corpus_project_anonymous(mode), &cli, &scratch, 0);
+        }
         let nproj = args.budget(40, 400);
         for i in 0..nproj {
             let p = gen_project(&mut rng);
